@@ -96,7 +96,10 @@ def _install(ctx):
             return None
         ann = [l if (_undetermined(m) or l.startswith("reset") or l.startswith("new") or m == "bad-op") else l + HINT + m
                for l, m in zip(plain, mo)]
-        io = self.run_impl(area, ann, name, timeout=180, extra_env=extra_env)
+        env = dict(extra_env or {})
+        if not self.replay:
+            env["C15_DEADLINE_MS"] = "500"   # minimisation: the queue is already known to be defective, keep runs short
+        io = self.run_impl(area, ann, name, timeout=180, extra_env=env)
         if io is None:
             return None
         for k, (a, b) in enumerate(zip(io, mo)):
@@ -104,9 +107,26 @@ def _install(ctx):
                 return (k, io, mo)
         return None
 
+    orig_minimise, orig_run_impl = ctx._minimise, ctx.run_impl
+
+    def minimise(self, area, driver, name, hist, canon, extra_env=None, budget=80):
+        return orig_minimise(area, driver, name, hist, canon, extra_env, budget=14 if area == "forced" else budget)
+
+    def run_impl(self, area, lines, name="harness", timeout=900, extra_env=None):
+        outs = orig_run_impl(area, lines, name, timeout, extra_env)
+        if area == "forced" and outs:
+            k = sum(1 for o in outs if o == "skipped-after-crash")
+            if k:
+                self.extra["forced_lines_not_run_after_crash_or_hang"] = self.extra.get(
+                    "forced_lines_not_run_after_crash_or_hang", 0) + k
+        return outs
+
     ctx.gen = types.MethodType(gen, ctx)
     ctx.corpus = types.MethodType(corpus, ctx)
     ctx._mismatch = types.MethodType(mismatch, ctx)
+    ctx._minimise = types.MethodType(minimise, ctx)
+    ctx.run_impl = types.MethodType(run_impl, ctx)
+    ctx.reported_total["forced"] = 1   # at most two minimised reports for the area (the limit of core is 3)
 
 
 def _tidy_replays(ctx):
@@ -145,11 +165,15 @@ def run(ctx):
         "the protocol model abstracts the Go runtime: channel operations are atomic steps, goroutine scheduling is "
         "arbitrary interleaving (no fairness); which worker takes a task is not distinguished (workers are counted); "
         "`Submit(nil)` and `Submit` after `Shutdown` are outside the domain",
-        "forced schedules: the harness polls for the model's predicted quiescent observable (deadline 6 s) and then "
+        "forced schedules: the harness polls for the model's predicted quiescent observable (deadline 3 s; after 3 missed "
+        "deadlines the rest of the stream is not run, the lines are counted in forced_lines_not_run_after_crash_or_hang) and then "
         "watches a grace period; an event later than the grace period is seen on the following line of the history "
         "(observables are cumulative) or by the final `obs` (25 ms)",
         "the `in` channel capacity (2*NumCPU in New) is a parameter of the model; the harness sets it to 1..5 through the "
         "injected option taskqueue.VerifInCap (go/overlay/c15_incap.go) and also runs the default capacity (stress)",
+        "handler configuration: `new W D C H` / stress mode H = 0 recording handler, 1 no RecoveryHandler option, 2 "
+        "RecoveryHandler(nil), 3 handler that records and panics; the model has Cfg.handler (true for 0 and 3); the "
+        "guard `defer Recovery(nil)` around a panicking handler is exercised, not modelled",
     ]
     ctx.assumptions += [
         "running tasks eventually finish and the Go scheduler does not stop while a goroutine can move (the liveness "
@@ -169,7 +193,7 @@ def run(ctx):
     ctx.diff(area="forced", driver="drv_c15", n={"quick": 7000, "thorough": 200000}, stateful=True,
              trivial=_trivial, tagger=_tag, timeout=1500, theorem=thm, what=what)
     # the same stream on a single P (cooperative scheduling: different interleavings of dispatcher, workers, submitter)
-    if not ctx.replay:
+    if not ctx.replay and not ctx.violations:
         ctx.seed += 7777
         ctx.diff(area="forced", driver="drv_c15", n={"quick": 2500, "thorough": 60000}, stateful=True,
                  trivial=_trivial, tagger=lambda l, o: "gomaxprocs1:" + _tag(l, o), timeout=1500, theorem=thm,
